@@ -50,6 +50,22 @@ def run(sc, keep_sim=False, hold=None):
                     st.ca_subscribe_request(ci, st.cb(cid, 'req'))
         if hold:
             install_hold(sim, stacks, hold)
+        for hk in sc.get('on_tx', []):
+            # {'s': stack, 'pgn16': PGN bits 8..23 of the id to match (e.g. 0xEEFF), 'nth': which match, 'ops': [...]}: the ops run as
+            # application calls of that node while its nth matching frame is being handed to the bus
+            def mk(hk):
+                state = {'n': 0}
+
+                def hook(can_id, data):
+                    if ((can_id >> 8) & 0xFFFF) != hk['pgn16']:
+                        return
+                    state['n'] += 1
+                    if state['n'] == hk.get('nth', 1):
+                        for op in hk['ops']:
+                            _mk_call(sim, stacks, dict(op, s=hk['s'], t=sim.now), res)()
+                return hook
+            st = stacks[hk['s']]
+            st.tx_hooks = getattr(st, 'tx_hooks', []) + [mk(hk)]
         for ev in sc.get('script', []):
             sim.at(ev['t'], _mk_call(sim, stacks, ev, res))
         for inj in sc.get('inject', []):
